@@ -442,6 +442,13 @@ def luba_catalogue(rng):
     cat.append(("event-recv8", luba_frame(0x31, [0, 0, 0, 0x88, rng.randrange(256)])))
     cat.append(("event-recv24", luba_frame(0x31, [0, 0, 0, 0x98, 0xC1, 0x00, 0x00])))
     cat.append(("event-recv24", luba_frame(0x31, [0, 0, 0, 0x98, 0x01, 0xFE, 0x30])))
+    # observed 24-bit EVENT messages of every addressing scheme, with the all-zero and the all-ones value of each
+    # field (instance number 0, group 0, type 0, …)
+    for d in (0x028005, 0x02FC05, 0x7E8005, 0x000005, 0x00FFFF, 0x80000A, 0x807C0A, 0xC0000A, 0xFE83FF, 0x808005,
+              0xBE8005, 0xC08005, 0xFEFFFF):
+        cat.append(("event-recv24ev", luba_frame(0x31, [0, 0, 0, 0x98, d >> 16, (d >> 8) & 255, d & 255])))
+        cat.append(("event-sent24ev", luba_frame(0x31, [0, 0, 0, 0x18, rng.randrange(256), d >> 16, (d >> 8) & 255,
+                                                        d & 255])))
     cat.append(("event-recv-err", luba_frame(0x31, [0, 0, 0, 0x80 | 62, 0])))
     cat.append(("event-other1", luba_frame(0x31, [0, 0, 0, 0x40 | 5, 1, 2])))
     cat.append(("event-other3", luba_frame(0x31, [0, 0, 0, 0xC0 | 1])))
@@ -461,7 +468,13 @@ def luba_dropped(rng):
     """frames the receiver must drop without any lasting effect"""
     bad = luba_frame(0x31, [0, 0, 0, 0x88, 0x33])
     bad[-1] ^= 0x5A
-    return [bad, luba_frame(0x77, [1, 2, 3]), [Y, 0x31, 0], [Y, 0x31, 21], [0] * 5]
+    # … an unknown message type AND a failing checksum, for payload lengths 1, 3, 20
+    worse = []
+    for t, n in ((0x77, 1), (0x02, 3), (0xEE, 20), (0x30, 2)):
+        f = luba_frame(t, [rng.randrange(256) for _ in range(n)])
+        f[-1] ^= 0x21
+        worse.append(f)
+    return [bad, luba_frame(0x77, [1, 2, 3]), [Y, 0x31, 0], [Y, 0x31, 21], [0] * 5] + worse
 
 
 def sci_catalogue(rng):
@@ -477,7 +490,7 @@ def sci_catalogue(rng):
                 for d in (0xC106, 0xFE80, 0xA300, 0x01E3):
                     cat.append(("code3", sci_frame(status, rng.randrange(256), d >> 8, d & 255)))
             elif code == 8:
-                for d in (0xC10000, 0x01FE30):
+                for d in (0xC10000, 0x01FE30, 0x028005, 0x02FC05, 0x000005, 0x80000A, 0xC0000A, 0xFE83FF):
                     cat.append(("code8", sci_frame(status, d >> 16, (d >> 8) & 255, d & 255)))
             else:
                 cat.append(("code%d" % code, sci_frame(status, rng.randrange(256), rng.randrange(256), 0x55)))
